@@ -379,7 +379,7 @@ def behaviour_stream(ctx, rnd, n_random, proofs_ok, wide_widths=(140,)):
     wide = {}
     for width in wide_widths:
         k += 1
-        add(G.wide_project(rnd, "path" if k % 2 else "luau", width), GENERATORS[k % 3], [], None, "ordinary", fuel=2 * width + 500)
+        add(G.wide_project(rnd, "path" if k % 2 else "luau", width), GENERATORS[k % 3], [], None, "ordinary", fuel=4 * width + 600)
         wide[pid] = width
     # a root-level module that requires a file also required from a sub-directory: recorded finding
     for vt in (["table", "table"], ["func", "table"]):
